@@ -12,7 +12,7 @@
   Core Lean only.
 -/
 import DulwichModel.Model.Basic
-import DulwichModel.Gen.Graph
+import DulwichModel.Gen.ObjGraph
 
 namespace Dulwich.Graph
 
